@@ -90,7 +90,7 @@ class C16(Cfg):
         path = os.path.join(work, "enum16_%s.ops" % tier)
         lib.sh([dv, "enum16", "--tier", tier, "--out", path], check=True)
         res.append(("all phase interleavings of 2-3 mutations (%s families) + mutation_stream" % tier, path, True))
-        n = 200 if tier == "quick" else 6000
+        n = 200 if tier == "quick" else 4000
         path = os.path.join(work, "random16.ops")
         lib.sh([dv, "gen16", "--seed", str(seed), "--n", str(n), "--out", path], check=True)
         res.append(("random mutations and schedules seed=%d n=%d" % (seed, n), path, False))
